@@ -13,7 +13,7 @@ func init() {
 }
 
 func checkC15(r *Run) {
-	r.Rule("R1", "every parser error message is built by a format that starts with 'line %d:' and is fed from a token's LineNumber", 10)
+	r.Rule("R1", "every parser error message is built by a format that starts with 'line %d:' and is fed from a token's LineNumber", 6)
 	r.Rule("R2", "the top-level evaluator has exactly one error exit and it is fmt.Errorf(\"line %d: %w\", <statement>.T().LineNumber, err)", 1)
 	r.Rule("R3", "the statement whose line is reported belongs to the tag being executed: the current-statement slot is reset for every top-level statement and written otherwise only on entry of the in-block statement evaluator", 2)
 	r.Rule("R4", "every token leaves the lexer with LineNumber assigned, on every path of both token functions", 30)
